@@ -306,12 +306,41 @@ def w_statistical(ctx, rng, i):
     ctx.bin("stat.selection", sel)
 
 
+def w_two_grids(ctx, rng, i):
+    """identical PD parameters and CW power on two sampling rates within one process: thermal and shot variances scale with the
+    bandwidth fs/2 of the grid in force each time."""
+    N = 2 ** 17
+    fa, fb = (float(v) for v in rng.choice([1e10, 4e10, 1.6e11], 2, replace=False))
+    p = rand_case(rng)
+    p["T"] = float(rng.uniform(150, 400))
+    P = float(10 ** rng.uniform(-5, -3))
+    sel = ["thermal-only", "shot-only", "thermal-shot"][i % 3]
+    np.random.seed(int(rng.integers(2 ** 31)))
+    ctx.describe(sel=sel, fs_sequence=[fa, fb, fa], P=P, **p)
+    for fs in (fa, fb, fa):
+        with core.quiet():
+            T.gv(sps=8, fs=fs)
+            BW = 0.2 * fs
+            y = D.PD(T.optical_signal(np.sqrt(P) * np.ones(N, complex)), BW, p["r"], p["T"], p["R_load"], sel, p["i_dark"], p["Fn"])
+            imp = np.zeros(4096)
+            imp[2048] = 1.0
+            g = lpf_ref(imp, BW)
+        neb, sum_rho2, _ = noise_stats(g)
+        var_A2 = (4 * kB * p["T"] * 10 ** (p["Fn"] / 10) * fs / 2 / p["R_load"] if "thermal" in sel else 0.0) + (2 * qe * (p["r"] * P + p["i_dark"]) * fs / 2 if "shot" in sel else 0.0)
+        want = var_A2 * p["R_load"] ** 2 * neb
+        mid = y.noise[N // 64: -N // 64]
+        s2 = float(np.var(mid))
+        ctx.check("stat.var", abs(s2 - want) <= 6 * want * np.sqrt(2 * sum_rho2 / mid.size), f"{sel}: variance {s2:.6g} V^2 vs documented {want:.6g} V^2 at fs={fs:.3g} (ratio {s2 / want:.4f}; sampling-rate sequence {[fa, fb, fa]})", ratio=s2 / want)
+    ctx.case(("grids", sel, fa, fb), sample=dict(sel=sel, fs_sequence=[fa, fb, fa]) if i < 2 else None)
+
+
 WORKLOADS = [
     Workload("deterministic", w_deterministic, 700, 40000),
     Workload("invariance", w_invariance, 300, 20000),
     Workload("errors", w_errors, 6, 60),
     Workload("statistical", w_statistical, 28, 224, budget=300),
     Workload("repo_tests", lambda ctx, rng, i: core.run_repo_tests(ctx), 1, 1, budget=1800, tiers=("thorough",)),
+    Workload("two_grids", w_two_grids, 9, 120, budget=300),
 ]
 
 
